@@ -44,16 +44,61 @@ func checkPortManager(c *engine.Ctx) {
 	}
 	c.Rule("R1", "every usedPorts insert in Manager.Acquire is for a key found in freePorts (comma-ok lookup or range) that passed isPortAvailable, and the key is deleted from freePorts before the function returns")
 	n := 0
-	engine.ForEachInstr(acq, func(in ssa.Instruction) {
-		mu, ok := in.(*ssa.MapUpdate)
-		if !ok || !isMapField(mu.Map, usedF) {
+	// insert sites: a direct usedPorts[k] = … in Acquire, or a call to a Manager method that performs that insert for
+	// one of its parameters (the bookkeeping extracted into a helper)
+	type insertSite struct {
+		in  ssa.Instruction
+		key ssa.Value
+		// helper: also deletes the same parameter from freePorts
+		helperDeletes bool
+	}
+	var sites []insertSite
+	mgr := p.Named("server/ports", "Manager")
+	helperInsert := func(cf *ssa.Function) (keyIdx int, deletes bool) {
+		keyIdx = -1
+		if cf == nil || cf.Blocks == nil || cf.Signature.Recv() == nil || engine.NamedOf(cf.Signature.Recv().Type()) != mgr {
 			return
 		}
+		engine.ForEachInstr(cf, func(x ssa.Instruction) {
+			if mu, ok := x.(*ssa.MapUpdate); ok && isMapField(mu.Map, usedF) {
+				for i, q := range cf.Params {
+					if engine.SameValue(mu.Key, q) {
+						keyIdx = i
+					}
+				}
+			}
+		})
+		if keyIdx >= 0 {
+			engine.ForEachInstr(cf, func(x ssa.Instruction) {
+				if call, ok := x.(ssa.CallInstruction); ok {
+					if b, ok := call.Common().Value.(*ssa.Builtin); ok && b.Name() == "delete" && isMapField(call.Common().Args[0], freeF) && engine.SameValue(call.Common().Args[1], cf.Params[keyIdx]) {
+						deletes = true
+					}
+				}
+			})
+		}
+		return
+	}
+	engine.ForEachInstr(acq, func(in ssa.Instruction) {
+		switch x := in.(type) {
+		case *ssa.MapUpdate:
+			if isMapField(x.Map, usedF) {
+				sites = append(sites, insertSite{in: in, key: x.Key})
+			}
+		case *ssa.Call:
+			if idx, del := helperInsert(engine.CalleeFn(x)); idx >= 0 {
+				sites = append(sites, insertSite{in: in, key: engine.CallArgs(x)[idx], helperDeletes: del})
+			}
+		}
+	})
+	for _, site := range sites {
+		site := site
+		in := site.in
 		n++
 		key := fmt.Sprintf("server/ports.Manager.Acquire>insert#%d", n)
 		var kv ssa.Value
-		okp := c.AllPaths(key, engine.PathCheck{Fn: acq, Sink: engine.Is(in), Track: []ssa.Value{mu.Key}, Pred: func(st *engine.PathState) string {
-			k := st.Resolve(mu.Key)
+		okp := c.AllPaths(key, engine.PathCheck{Fn: acq, Sink: engine.Is(in), Track: []ssa.Value{site.key}, Pred: func(st *engine.PathState) string {
+			k := st.Resolve(site.key)
 			kv = k
 			// (a) membership in the free set
 			member := false
@@ -96,7 +141,9 @@ func checkPortManager(c *engine.Ctx) {
 			}
 			return ""
 		}}, "insert only for a free, available port")
-		if okp {
+		if okp && site.helperDeletes {
+			c.Hold(key+">leaves-free-set", in.Pos(), 2, nil, "the helper that marks the port used also removes the same port from the free set")
+		} else if okp {
 			c.AllPaths(key+">leaves-free-set", engine.PathCheck{Fn: acq, From: in, Sink: engine.IsReturn,
 				Event: func(x ssa.Instruction) string {
 					call, ok := x.(ssa.CallInstruction)
@@ -114,8 +161,15 @@ func checkPortManager(c *engine.Ctx) {
 					}
 					for _, e := range st.Events {
 						if e.Tag == "delete-free" {
-							dk := st.Resolve(e.Instr.(ssa.CallInstruction).Common().Args[1])
-							if !engine.SameExpr(dk, kv) && !engine.SameExpr(dk, st.Resolve(mu.Key)) {
+							dc, ok := e.Instr.(ssa.CallInstruction)
+							if !ok {
+								continue
+							}
+							if b, isB := dc.Common().Value.(*ssa.Builtin); !isB || b.Name() != "delete" {
+								continue
+							}
+							dk := st.Resolve(dc.Common().Args[1])
+							if !engine.SameExpr(dk, kv) && !engine.SameExpr(dk, st.Resolve(site.key)) {
 								return "the key deleted from the free set (" + engine.Describe(dk) + ") is not the port marked used"
 							}
 						}
@@ -123,7 +177,7 @@ func checkPortManager(c *engine.Ctx) {
 					return ""
 				}}, "the acquired port is removed from the free set before returning")
 		}
-	})
+	}
 	c.Floor(n, 3)
 
 	c.Rule("R2", "freePorts is written only by NewManager and Release; Release frees a port only when it was found in usedPorts, and removes it from usedPorts")
@@ -297,15 +351,75 @@ func checkTruePortChain(c *engine.Ctx, rule string) {
 		return
 	}
 	tp := &truePort{c: c, acquire: acquire, fields: map[*types.Var]bool{}, funcs: map[*types.Func]int{}, memo: map[ssa.Value]bool{}}
-	for _, spec := range [][3]string{{"server/proxy", "TCPProxy", "realBindPort"}, {"server/proxy", "UDPProxy", "realBindPort"}, {"server/group", "TCPGroup", "realPort"}} {
-		if f := field(c, spec[0], spec[1], spec[2]); f != nil {
-			tp.fields[f] = true
+	// The fields and functions that carry the acquired port are discovered, not named: a struct field (of integer type,
+	// in server/proxy or server/group) that is assigned a true port somewhere, and a function of server/group that
+	// returns one, join the chain; iterate to a fixpoint. Every *other* store / return of a member must then be a
+	// true port too (checked below).
+	inScope := func(f *ssa.Function) bool {
+		return f.Pkg != nil && (strings.HasSuffix(f.Pkg.Pkg.Path(), "/server/proxy") || strings.HasSuffix(f.Pkg.Pkg.Path(), "/server/group"))
+	}
+	// nomination (least fixpoint over provenance): a value "carries" the acquired port if its provenance contains the
+	// Acquire call, a nominated field or a nominated function's call
+	carries := func(v ssa.Value) bool {
+		src := engine.Provenance(v, engine.ProvOpts{NoArgs: true})
+		if src.HasCall(acquire) {
+			return true
+		}
+		for fv := range src.Fields {
+			if tp.fields[fv] {
+				return true
+			}
+		}
+		for fo := range tp.funcs {
+			if src.HasCall(fo) {
+				return true
+			}
+		}
+		return false
+	}
+	for round := 0; round < 6; round++ {
+		changed := false
+		for _, f := range p.RepoFuncs() {
+			if !inScope(f) {
+				continue
+			}
+			engine.ForEachInstr(f, func(in ssa.Instruction) {
+				switch x := in.(type) {
+				case *ssa.Store:
+					fv, _ := engine.LoadedField(x.Addr)
+					if fv == nil || tp.fields[fv] || !isIntegerType(fv.Type()) {
+						return
+					}
+					if fv.Pkg() == nil || !(strings.HasSuffix(fv.Pkg().Path(), "/server/proxy") || strings.HasSuffix(fv.Pkg().Path(), "/server/group")) {
+						return // configuration fields (cfg.RemotePort is updated for display) are not part of the chain
+					}
+					if carries(x.Val) {
+						tp.fields[fv] = true
+						changed = true
+					}
+				case *ssa.Return:
+					o, ok := f.Object().(*types.Func)
+					if !ok || f.Parent() != nil {
+						return
+					}
+					if _, done := tp.funcs[o]; done {
+						return
+					}
+					for i, r := range x.Results {
+						if isIntegerType(r.Type()) && carries(r) {
+							tp.funcs[o] = i
+							changed = true
+						}
+					}
+				}
+			})
+		}
+		if !changed {
+			break
 		}
 	}
-	for _, spec := range [][2]string{{"TCPGroup", "Listen"}, {"TCPGroupCtl", "Listen"}} {
-		if m := method(c, "server/group", spec[0], spec[1]); m != nil {
-			tp.funcs[m] = 1
-		}
+	if len(tp.fields) < 3 || len(tp.funcs) < 2 {
+		c.Undecide("true-port-chain", 0, "expected at least three fields and two functions carrying the acquired port, found %d and %d", len(tp.fields), len(tp.funcs))
 	}
 	n := 0
 	// (a) every store to a true-port field is a true port
